@@ -1,7 +1,7 @@
 (* C07 property theorems: statements + `exact lemma` only.
    External behaviour (covert policy function of C06, liveness probe, phantom selection, transport
    parameter handling, GeoIP) is universally quantified. *)
-From CJ Require Import Common.Base C06.Model C07.Model C07.Proofs C07.ModelLive C07.ProofsLive C07.ProofsSeq.
+From CJ Require Import Common.Base C06.Model C07.Model C07.Proofs C07.ModelLive C07.ProofsLive C07.ProofsSeq C07.ModelLife C07.ProofsLife.
 
 (* A draft registration handed to ingest is announced to the detector iff it is complete, its transport
    is enabled, its phantom is not blocklisted, it is not already tracked, its covert passes the covert
@@ -384,3 +384,90 @@ Theorem C07_if_direction_fresh_identifier :
     exists r', In (Announce r') (snd (process select params_ok dst_port geoip_ok covert_check live cfg st w)).
 Proof. exact if_direction_fresh_identifier. Qed.
 Print Assumptions C07_if_direction_fresh_identifier.
+
+(* ================================================================== lifecycle: the generation set IN FORCE
+   "names a KNOWN ClientConf generation" is evaluated against the phantom subnet file the station loaded at start-up or
+   at its last successful reload.  The file in force is part of the station state (ModelLife.v); a reload replaces it
+   wholesale when the new file loads and not at all when it does not.  S / pick: what a generation's entry holds and
+   the selection within one generation, universally quantified. *)
+
+(* The headline over ALL histories of messages and reloads: the message at position |h1| has a registration announced iff
+   the whole-message conditions of C07_message_announced_iff_admissible hold with phantom selection (hence "generation
+   known", C07_lifecycle_buildable_needs_known) taken from the file in force after h1 and the table h1 left. *)
+Theorem C07_lifecycle_announced_iff :
+  forall S pick params_ok dst_port geoip_ok covert_check live cfg f st h1 w h2 r',
+    let f1 := in_force S f h1 in
+    let st1 := snd (fst (lrun S pick params_ok dst_port geoip_ok covert_check live cfg (f, st) h1)) in
+    let sel := select_of S pick f1 in
+    In (Announce r') (nth (length h1) (snd (lrun S pick params_ok dst_port geoip_ok covert_check live cfg (f, st) (h1 ++ LMsg S w :: h2))) []) <->
+    exists p v6 r lit,
+      w_payload w = Some p /\ message_ok sel params_ok dst_port geoip_ok cfg w p = true /\
+      want cfg w p v6 = true /\
+      new_reg sel params_ok dst_port geoip_ok cfg w p v6 = Ok r /\
+      admissible covert_check live cfg (state_before sel params_ok dst_port geoip_ok covert_check live cfg st1 w p v6) r = true /\
+      covert_check (r_covert r) = Some lit /\ r' = set_covert r lit.
+Proof. exact lifecycle_announced_iff. Qed.
+Print Assumptions C07_lifecycle_announced_iff.
+
+(* every step of a lifecycle history is Model.process under the selector of the file in force (what the tie compares) *)
+Theorem C07_lifecycle_step_is_in_force :
+  forall S pick params_ok dst_port geoip_ok covert_check live cfg f st h1 w h2,
+    nth (length h1) (snd (lrun S pick params_ok dst_port geoip_ok covert_check live cfg (f, st) (h1 ++ LMsg S w :: h2))) [] =
+    snd (process (select_of S pick (in_force S f h1)) params_ok dst_port geoip_ok covert_check live cfg
+                 (snd (fst (lrun S pick params_ok dst_port geoip_ok covert_check live cfg (f, st) h1))) w).
+Proof. exact lifecycle_step. Qed.
+Print Assumptions C07_lifecycle_step_is_in_force.
+
+(* a registration message naming a generation that the file in force does not hold -- never configured, or retired by an
+   earlier reload -- has no effect at all (no probe, share, announcement) and leaves the table as it was *)
+Theorem C07_lifecycle_unknown_generation_no_effect :
+  forall S pick params_ok dst_port geoip_ok covert_check live cfg f st h1 w h2 p,
+    w_payload w = Some p -> known S (in_force S f h1) (c_gen p) = false ->
+    nth (length h1) (snd (lrun S pick params_ok dst_port geoip_ok covert_check live cfg (f, st) (h1 ++ LMsg S w :: h2))) [] = [] /\
+    snd (fst (lrun S pick params_ok dst_port geoip_ok covert_check live cfg (f, st) (h1 ++ [LMsg S w]))) =
+    snd (fst (lrun S pick params_ok dst_port geoip_ok covert_check live cfg (f, st) h1)).
+Proof. exact lifecycle_unknown_no_effect. Qed.
+Print Assumptions C07_lifecycle_unknown_generation_no_effect.
+
+Theorem C07_lifecycle_buildable_needs_known :
+  forall S pick params_ok dst_port geoip_ok cfg f w p v6,
+    buildable (select_of S pick f) params_ok dst_port geoip_ok cfg w p v6 = true -> known S f (c_gen p) = true.
+Proof. exact known_buildable_conj. Qed.
+Print Assumptions C07_lifecycle_buildable_needs_known.
+
+(* the file in force is the last successfully loaded one: a successful reload replaces it wholesale, a failed reload
+   and a message leave it alone; the station's state after any history holds exactly that file *)
+Theorem C07_lifecycle_in_force_is_last_successful_reload :
+  forall S pick params_ok dst_port geoip_ok covert_check live cfg f st h f' w,
+    in_force S f (h ++ [LReload S (Some f')]) = f' /\
+    in_force S f (h ++ [LReload S None]) = in_force S f h /\
+    in_force S f (h ++ [LMsg S w]) = in_force S f h /\
+    fst (fst (lrun S pick params_ok dst_port geoip_ok covert_check live cfg (f, st) h)) = in_force S f h.
+Proof.
+  intros. repeat split.
+  - apply in_force_last_reload. - apply in_force_failed_reload. - apply in_force_msg.
+  - exact (lrun_file S pick params_ok dst_port geoip_ok covert_check live cfg (f, st) h).
+Qed.
+Print Assumptions C07_lifecycle_in_force_is_last_successful_reload.
+
+(* a reload has no effect on registrations and changes no lookup; over a whole lifecycle history lookups return exactly
+   the announced registrations *)
+Theorem C07_lifecycle_visible_eq_announced :
+  forall S pick params_ok dst_port geoip_ok covert_check live cfg s h,
+    visible_all (snd (fst (lrun S pick params_ok dst_port geoip_ok covert_check live cfg s h))) =
+    visible_all (snd s) ++ announced_regs (concat (snd (lrun S pick params_ok dst_port geoip_ok covert_check live cfg s h))).
+Proof. exact lifecycle_visible. Qed.
+Print Assumptions C07_lifecycle_visible_eq_announced.
+
+Theorem C07_lifecycle_reload_no_effect :
+  forall S pick params_ok dst_port geoip_ok covert_check live cfg f st h1 r h2,
+    nth (length h1) (snd (lrun S pick params_ok dst_port geoip_ok covert_check live cfg (f, st) (h1 ++ LReload S r :: h2))) [] = [].
+Proof. exact lifecycle_reload_step. Qed.
+Print Assumptions C07_lifecycle_reload_no_effect.
+
+(* refuted variant: merging the reloaded generations into the selector in place keeps a removed generation known *)
+Theorem C07_merge_reload_refuted :
+  exists (f f' : pfile unit) g, known unit (reload_merge unit f (Some f')) g = true /\ known unit f' g = false /\
+                                known unit (reload unit f (Some f')) g = false.
+Proof. exact merge_keeps_retired. Qed.
+Print Assumptions C07_merge_reload_refuted.
